@@ -152,7 +152,12 @@ def setup_recursive_safe_function(
 
             # Note: two different types can share a `__name__`
             if not is_generic and _fn_name in recursion_guard.values():
-                _fn_name = f'{_fn_name}{len(recursion_guard)}'
+                _base, _n = _fn_name, len(recursion_guard)
+                _fn_name = f'{_base}{_n}'
+                # the name made up here can be the name of another type
+                while _fn_name in recursion_guard.values():
+                    _n += 1
+                    _fn_name = f'{_base}{_n}'
 
             recursion_guard[key] = _fn_name
 
